@@ -53,8 +53,9 @@ CONSTANTS Clients, Topics, Msgs,          \* small integers (> 0)
           ReqTopics,                      \* topics requesters send to
           CloseTargets,                   \* clients the closers may Close()
           QueueClose,                     \* closers may call queue.Close()
-          FixLowDone,       \* sendLowTimeout(-1) selects on sub.done  (queue.go)
-          FixCloseSweep,    \* Close sets isClose inside the sweep; chanSub creates closed topics afterwards
+          FixLowDone,       \* TRUE = code after /repo commit 9cd5910: sendLowTimeout(-1) also selects on sub.done
+          FixCloseSweep,    \* TRUE = code after /repo commit 4a048ea: Close stores isClose before the sweep and
+                            \* chanSub creates a topic first used afterwards closed. FALSE = the code as found.
           FreeAfterTimeout, \* contract-breaking requester (free a sent message without consuming the reply)
           EmitOn
 
@@ -77,15 +78,16 @@ IdleTh == [pc |-> "idle", m |-> 0, req |-> 0, wr |-> FALSE, mode |-> "-", ret |-
 NoTopic == [ex |-> FALSE, closed |-> FALSE, high |-> <<>>, low |-> <<>>]
 OpenTopic == [ex |-> TRUE, closed |-> FALSE, high |-> <<>>, low |-> <<>>]
 
-Init ==
+\* P: the clients that exist (subscribers among them have called Sub, which creates their topic and pump)
+InitWith(P) ==
   /\ qflag = FALSE /\ qsw = FALSE /\ qstarted = FALSE
-  /\ tp = [t \in Topics |-> IF \E c \in Clients : SubOf[c] = t THEN OpenTopic ELSE NoTopic]
+  /\ tp = [t \in Topics |-> IF \E c \in P : SubOf[c] = t THEN OpenTopic ELSE NoTopic]
   /\ cl = [c \in Clients |-> [done |-> FALSE, closed |-> FALSE, rclosed |-> FALSE, recv |-> <<>>,
-                              pp |-> IF SubOf[c] # 0 THEN "outer" ELSE "none", pi |-> 0]]
+                              pp |-> IF c \in P /\ SubOf[c] # 0 THEN "outer" ELSE "none", pi |-> 0]]
   /\ ob = [o \in Msgs |-> [st |-> "new", req |-> 0, topic |-> 0, wr |-> FALSE, slot |-> <<>>]]
   /\ th = [x \in Threads |-> IdleTh]
   /\ nreq = 0 /\ deliv = [i \in 1..MaxReq |-> 0] /\ bad = {} /\ cret = {} /\ qret = FALSE
-  /\ act = IF EmitOn THEN ToJson([op |-> "Init"]) ELSE ""
+Init == InitWith(Clients) /\ act = IF EmitOn THEN ToJson([op |-> "Init"]) ELSE ""
 
 \* chanSub(t) under q.mu: creates the topic on first use
 Ensure(t) == IF tp[t].ex THEN tp
@@ -347,16 +349,21 @@ CloseCE(k) ==
 CloseQS(k) ==
   /\ th[k].pc = "idle" /\ ~qstarted /\ QueueClose
   /\ qstarted' = TRUE
-  /\ Goto(k, "q1")
+  /\ Goto(k, IF FixCloseSweep THEN "q0" ELSE "q1")
   /\ UNCHANGED <<qflag, qsw, tp, cl, ob, nreq, deliv, bad, cret, qret>>
   /\ Emit([op |-> "CloseQS", th |-> k])
+\* repaired code: isClose is stored first (under q.mu, but readers do not take the lock), then the sweep
+Q0(k) == /\ th[k].pc = "q0"
+         /\ qflag' = TRUE
+         /\ Goto(k, "q1")
+         /\ UNCHANGED <<qsw, qstarted, tp, cl, ob, nreq, deliv, bad, cret, qret>> /\ Tau
 \* the sweep under q.mu
 Q1(k) == /\ th[k].pc = "q1"
          /\ tp' = [t \in Topics |-> CloseT(tp[t])]
          /\ qsw' = TRUE
-         /\ qflag' = IF FixCloseSweep THEN TRUE ELSE qflag
-         /\ Goto(k, "q2")
-         /\ UNCHANGED <<qstarted, cl, ob, nreq, deliv, bad, cret, qret>> /\ Tau
+         /\ Goto(k, IF FixCloseSweep THEN "qr" ELSE "q2")
+         /\ UNCHANGED <<qflag, qstarted, cl, ob, nreq, deliv, bad, cret, qret>> /\ Tau
+\* code as found: isClose was stored after the sweep
 Q2(k) == /\ th[k].pc = "q2"
          /\ qflag' = TRUE
          /\ Goto(k, "qr")
@@ -379,7 +386,7 @@ RespStep(s) == RecvS(s) \/ R1(s) \/ RecvE(s) \/ Reply(s) \/ Ignore(s) \/ FreeAsy
 PumpStep(c) == PumpOuter(c) \/ PumpInner(c) \/ PumpPut(c)
 CloserStep(k) == \/ \E c \in CloseTargets : CloseCS(k, c)
                  \/ K1(k) \/ K2(k) \/ K3(k) \/ K4(k) \/ K5(k) \/ K6(k) \/ CloseCE(k)
-                 \/ CloseQS(k) \/ Q1(k) \/ Q2(k) \/ CloseQE(k)
+                 \/ CloseQS(k) \/ Q0(k) \/ Q1(k) \/ Q2(k) \/ CloseQE(k)
 
 Next == \/ \E r \in Requesters : ReqStep(r)
         \/ \E s \in Responders : RespStep(s)
